@@ -10,7 +10,7 @@ import ast
 import z3
 from . import fl
 from .fl import SFloat
-from .vals import SArr, SList, SFunc, Unsupported, fresh_name, fresh_int, sel as zsel
+from .vals import SArr, SList, SFunc, SStr, Unsupported, fresh_name, fresh_int, sel as zsel
 from .state import array_read, coerce_scalar, havoc_cell
 from .lazy import LArr, SData, SDs, _Lit, elem, shape_of, dtype_of, frozen, zi, _num
 from .expr import (is_int, is_boolv, is_bv, is_float, as_bool, zb, to_int, simp_bool, band, bor, bnot, merge, arith, compare,
@@ -253,6 +253,18 @@ class GatherMixin:
                 return WhereComp(base, k if k >= 0 else len(base) + k)
         if is_arr(base):
             idx = self.index_list(n.slice, st)
+            if any(i is None for i in idx) and all(i is None or (isinstance(i, tuple) and i[0] == "slice" and i[1:] == (None, None, None))
+                                                   for i in idx):
+                # a[:, :, np.newaxis]: full slices and new unit axes only -- the same values seen through one more axis of extent 1
+                src = frozen(base, st)
+                keep = [k for k, i in enumerate(idx) if i is not None]
+                if len(keep) != len(shape_of(base)):
+                    raise Unsupported("np.newaxis with a partial index (line %d)" % n.lineno)
+                shp, it = [], iter(shape_of(base))
+                for i in idx:
+                    shp.append(1 if i is None else next(it))
+                return LArr(arr_dt(base), shp, (lambda ix, st2, src=src, keep=keep: elem(src, [ix[k] for k in keep], st2)), None,
+                            name="newaxis")
             gi = [k for k, i in enumerate(idx) if isinstance(i, Gath)]
             if gi:
                 return self.index_gather(base, idx, gi, st, n)
@@ -716,7 +728,88 @@ class GatherMixin:
             raise Unsupported("xr.DataArray of %r (line %d)" % (type(data), n.lineno))
         if isinstance(data, LArr):
             data = self.materialize(data, st, "dataarray")
-        return SData(data, dims=kw.get("dims"))
+        dims = kw.get("dims")
+        if isinstance(dims, SList):
+            dims = list(dims.items)
+        coords = kw.get("coords")
+        cmap = None
+        if coords is not None:
+            if isinstance(coords, SList):
+                coords = list(coords.items)
+            if isinstance(coords, (list, tuple)) and dims is None and coords and all(
+                    isinstance(c, tuple) and len(c) == 2 and isinstance(c[0], str) for c in coords):
+                dims = [c[0] for c in coords]          # coords=[(dim, labels), ...]
+                coords = [c[1] for c in coords]
+            if isinstance(coords, (list, tuple)):
+                if dims is None or len(dims) != len(coords) or not all(isinstance(d, str) for d in dims):
+                    raise Unsupported("xr.DataArray(coords=[...]) without matching dims (line %d)" % n.lineno)
+                cmap = {d: self.coord_array(c, st, n) for d, c in zip(dims, coords)}
+            elif isinstance(coords, dict):
+                cmap = {d: self.coord_array(c, st, n) for d, c in coords.items()}
+            else:
+                raise Unsupported("xr.DataArray coords form (line %d)" % n.lineno)
+            shp = [len(data.items)] if isinstance(data, SList) else shape_of(data)
+            for k_, d in enumerate(dims or []):
+                if d in cmap and not self.spec:
+                    self.emit(st, "pre@call", "coords.%s.L%d" % (d, n.lineno), zi(shape_of(cmap[d])[0]) == zi(shp[k_]), n,
+                              "the %s coordinate has one label per element of that axis (xarray raises otherwise)" % d)
+        return SData(data, dims=dims, coords=cmap)
+
+    def coord_array(self, c, st, n):
+        """a coordinate passed to xarray: DataArray / ndarray / list of labels -> an array"""
+        if isinstance(c, SData):
+            return c.arr
+        if is_arr(c):
+            return c
+        if isinstance(c, SList):
+            items = list(c.items)
+            if items and all(isinstance(x, (str, SStr)) for x in items):
+                from .vals import intern_str
+                toks = [x.tok if isinstance(x, SStr) else z3.IntVal(intern_str(x)) for x in items]
+
+                def get(ix, st2, toks=toks):
+                    r = toks[-1]
+                    for j in range(len(toks) - 2, -1, -1):
+                        r = z3.If(zi(ix[0]) == j, toks[j], r)
+                    return SStr(r)
+                return LArr("s", [len(items)], get, None, name="labels")
+        raise Unsupported("coordinate labels %r (line %d)" % (type(c), n.lineno))
+
+    def b_numpy_append(self, args, kw, st, n):
+        """np.append(a, x) for a 1-D a and a scalar x: a new array, a's values then x"""
+        a, x = args[0], args[1]
+        if isinstance(a, SData):
+            a = a.arr
+        if not is_arr(a) or len(shape_of(a)) != 1 or is_arr(x) or isinstance(x, (SList, tuple, list)) or kw:
+            raise Unsupported("np.append form (line %d)" % n.lineno)
+        src = frozen(a, st)
+        n0 = shape_of(a)[0]
+        dt = arr_dt(a)
+        if dt == "s" and not isinstance(x, (str, SStr)):
+            raise Unsupported("np.append of a non-string to an array of strings (line %d)" % n.lineno)
+        if dt != "s" and isinstance(x, (str, SStr)):
+            raise Unsupported("np.append of a string to a numeric array (line %d)" % n.lineno)
+
+        def get(ix, st2, src=src, n0=n0, x=x):
+            from .expr import merge
+            return merge(zi(ix[0]) < zi(n0), elem(src, ix, st2), x)
+        return LArr(dt, [z3.simplify(zi(n0) + 1) if not isinstance(n0, int) else n0 + 1], get, None, name="append")
+
+    def m_drop_dims(self, recv, args, kw, st, n):
+        """ds.drop_dims(d): a NEW dataset without the variables that have dimension d and without its coordinate; the other
+        variables and coordinates are the same objects (xarray does not copy the buffers)"""
+        if not isinstance(recv, SDs) or len(args) != 1 or not isinstance(args[0], str):
+            raise Unsupported("drop_dims form (line %d)" % n.lineno)
+        d = args[0]
+        keep = {}
+        for k_, v in recv.vars.items():
+            if v.dims is None:
+                raise Unsupported("drop_dims on a dataset whose variable %r has no declared dims (line %d)" % (k_, n.lineno))
+            if d not in (v.dims.items if isinstance(v.dims, SList) else v.dims):
+                keep[k_] = v
+        coords = {k_: v for k_, v in recv.coords.items() if k_ != d}
+        out = SDs(recv.name + ".drop_dims", keep, coords, dict(recv.attrs), {k_: v for k_, v in recv.sizes.items() if k_ != d})
+        return out
 
     b_xr_DataArray = b_xarray_DataArray
 
@@ -743,11 +836,23 @@ class GatherMixin:
         change when they differ).  The model assigns positionally, which is what xarray does exactly when the labels of the
         shared dimensions are equal -- shown here as an obligation, not assumed."""
         src = getattr(v, "owner", None)
-        if src is None or src is dst or self.spec:
+        own = getattr(v, "coords", None) or {}
+        if self.spec:
             return
-        for dim in ("row", "col"):
-            a, b = dst.coords.get(dim), src.coords.get(dim)
-            if a is None or b is None or a is b:
+        vd = v.dims.items if isinstance(v.dims, SList) else (v.dims or ())
+        dims = [d for d in vd if isinstance(d, str)] if (vd and (own or src is not None)) else ["row", "col"]
+        for dim in dims:
+            b = own.get(dim)
+            if b is None and src is not None and src is not dst:
+                b = src.coords.get(dim)
+            a = dst.coords.get(dim)
+            if b is None:
+                continue
+            if a is None:
+                # a dimension the dataset does not have yet: the DataArray brings its coordinate along
+                dst.coords[dim] = b if isinstance(b, SData) else SData(b, name=dim, owner=dst)
+                continue
+            if a is b:
                 continue
             aa, bb = a.arr if isinstance(a, SData) else a, b.arr if isinstance(b, SData) else b
             if aa is bb:
@@ -757,7 +862,7 @@ class GatherMixin:
             i = z3.Int(fresh_name("al"))
             na, nb = zi(shape_of(aa)[0]), zi(shape_of(bb)[0])
             ea, eb = elem(aa, [i], st), elem(bb, [i], st)
-            same = compare("==", _num(ea), _num(eb), True)
+            same = (ea.tok == eb.tok) if isinstance(ea, SStr) and isinstance(eb, SStr) else compare("==", _num(ea), _num(eb), True)
             self.emit(st, "pre@call", "align.%s.L%d" % (dim, node.lineno),
                       z3.And(na == nb, z3.ForAll([i], z3.Implies(z3.And(i >= 0, i < na), zb(as_bool(same))))), node,
                       "the %s labels of the assigned DataArray equal the dataset's (xarray aligns by label)" % dim)
